@@ -73,7 +73,11 @@ claim("C05",
       "Static for all record types: String's transitive read set and parse's transitive write set (E2 effect summaries) cover every wire field (listed derived-length exceptions); mnemonic tables unique and fixed points of the parsers' upper-casing; TYPE/CLASS/\\# spellings agree between printer and parser; character-strings printed through the quoting helpers or between literal quotes; escape sets of the TXT and SVCB printers; bitmaps printed through Type.String; no case folding of names; TTL parser range = 32-bit field range. Seven genuine defects are listed as known findings (None/Reserved mnemonics; unquoted X25, GPOS x3, CAA.Tag). Octet-identical RDATA after a round trip and numeric formatting are not decided.",
       STATIC_NOTE, "interprocedural read/write effect sets; table extraction and agreement; AST quoting idioms")
 
+claim("C02",
+      "Static, for all 326 functions reachable from the decoders: a lexicographic ranking argument for the compression-pointer loop; no allocation sized by message integers; count-bounded loops stop when the offset stops advancing, input-bounded loops redefine the offset; explicit panics discharged by a checked impossibility argument; and for every index/slice/fixed-width access on a byte buffer the upper bound is entailed by dominating comparisons (linear inequalities, bounded Farkas search) together with proven success postconditions of the helpers, caller-established preconditions and stride facts. Lower bounds, nil dereferences, integer conversions, the numeric work/memory bound and 'accepted messages print/pack without panicking' are not decided.",
+      STATIC_NOTE, "affine guard entailment over SSA (linear facts + interprocedural pre/postconditions), ranking function, taint of allocation sizes, call-graph reachability")
+
 _pending = "rules for this property are designed (DESIGN.md §4) but not implemented yet; not claimed until they run"
-for p in ["C02"]:
+for p in []:
     na(p, _pending)
 na("C19", "every clause is an equality between index arithmetic on a runtime string and its label sequence; no pairing/ownership/ordering/table structure to decide statically (DESIGN.md §8)")
